@@ -8,6 +8,7 @@
 //        free, use after free abort the case and are attributed to it by the runner)
 // ops: D<o> default ctor | U<o>:<hex> ctor(ptr,size) | C<o>,<s> copy ctor | M<o>,<s> move ctor | X<o> dtor | R<o> clear
 //      c<o>,<s> copy assign | m<o>,<s> move assign | A<o>,<n> allocate | F<o>,<n>,<v> allocate(fill) | W<o>,<at>:<hex> write via data()
+//      f<o>,<n>,<v> fill constructor buffer(count, fill)
 // snapshot: objects in id order, "o<id>:<size>:<units>:<terminator>:<where>", where = L (own in-object array) |
 //      A<id> (points into ANOTHER live object) | H<n> (heap block, numbered by first appearance in this snapshot) ;  "-" if none alive
 #include "st_common.hpp"
@@ -65,14 +66,14 @@ template <class T> struct PoolT {
         size_t comma = op.find(','), colon = op.find(':');
         long a1 = comma != std::string::npos ? atol(op.c_str() + comma + 1) : 0;
         if (o < 0 || o >= NOBJ) return false;
-        bool ctor = c == 'D' || c == 'U' || c == 'C' || c == 'M';
+        bool ctor = c == 'D' || c == 'U' || c == 'C' || c == 'M' || c == 'f';
         if (ctor ? live[o] : !live[o]) return false;
         if (c == 'C' || c == 'M' || c == 'c' || c == 'm') { if (a1 < 0 || a1 >= NOBJ || !live[a1]) return false; }
         if (c == 'W') {
             size_t n = colon == std::string::npos || op.substr(colon + 1) == "-" ? 0 : (op.size() - colon - 1) / (2 * (sizeof(T) > 4 ? 4 : sizeof(T)));
             if (a1 < 0 || (size_t)a1 + n > at(o)->size()) return false;
         }
-        return std::string("DUCMXRcmAFW").find(c) != std::string::npos;
+        return std::string("DUCMXRcmAFWf").find(c) != std::string::npos;
     }
 
     void apply(const std::string &op) {
@@ -100,6 +101,7 @@ template <class T> struct PoolT {
                   // contents are unspecified after allocate(): canonicalise them to the model's marker
                   for (long i = 0; i < a1; ++i) at(o)->data()[i] = (T)0xCD; break;
         case 'F': { Armed f(*this); at(o)->allocate((size_t)a1, (T)a2); } break;
+        case 'f': { Armed f(*this); new (raw[o]) B((size_t)a1, (T)a2); } live[o] = true; break;      // buffer(count, fill)
         case 'W': { T *d = at(o)->data(); for (size_t i = 0; i < tv.size(); ++i) d[a1 + i] = tv[i]; break; }
         }
     }
@@ -179,7 +181,8 @@ static std::string rand_op(Rng &rng, GenState &g, int nobj) {
         int o = (int)rng.below(nobj), s = (int)rng.below(nobj);
         unsigned kind = (unsigned)rng.below(12);
         if (!g.live[o]) {
-            if (kind < 3) { g.live[o] = true; g.size[o] = 0; return "D" + std::to_string(o); }
+            if (kind < 2) { g.live[o] = true; g.size[o] = 0; return "D" + std::to_string(o); }
+            if (kind < 3) { size_t n = pick_len(rng, g.L); g.live[o] = true; g.size[o] = n; return "f" + std::to_string(o) + "," + std::to_string(n) + "," + std::to_string(rng.chance(1, 4) ? 0 : 1 + rng.below(200)); }
             if (kind < 7) { size_t n = pick_len(rng, g.L); g.live[o] = true; g.size[o] = n; return "U" + std::to_string(o) + ":" + rand_units(rng, n, g.w); }
             if (!g.live[s]) continue;
             if (kind < 10) { g.live[o] = true; g.size[o] = g.size[s]; return "C" + std::to_string(o) + "," + std::to_string(s); }
@@ -193,7 +196,7 @@ static std::string rand_op(Rng &rng, GenState &g, int nobj) {
         case 7: case 8: { size_t n = pick_len(rng, g.L); g.size[o] = n; std::string r = "A" + std::to_string(o) + "," + std::to_string(n);
                           // allocate leaves the contents unspecified: always follow with a full write so snapshots are deterministic
                           return n ? r + ";W" + std::to_string(o) + ",0:" + rand_units(rng, n, g.w) : r; }
-        case 9: { size_t n = pick_len(rng, g.L); g.size[o] = n; return "F" + std::to_string(o) + "," + std::to_string(n) + "," + std::to_string(1 + rng.below(200)); }
+        case 9: { size_t n = pick_len(rng, g.L); g.size[o] = n; return "F" + std::to_string(o) + "," + std::to_string(n) + "," + std::to_string(rng.chance(1, 3) ? 0 : 1 + rng.below(200)); }
         default: { if (g.size[o] == 0) continue; size_t at = rng.below(g.size[o]); size_t n = 1 + rng.below(g.size[o] - at);
                    return "W" + std::to_string(o) + "," + std::to_string(at) + ":" + rand_units(rng, n, g.w); }
         }
@@ -222,6 +225,7 @@ template <class InSlice> static void gen_faults(Emitter &em, const Options &opt,
                 menu.push_back("U2:" + rand_units(r2, n, ty.bits));
                 menu.push_back("A0," + std::to_string(n));
                 menu.push_back("F0," + std::to_string(n) + ",65");
+                menu.push_back("f2," + std::to_string(n) + ",71");
                 menu.push_back("A1," + std::to_string(n));
             }
             for (const auto &pre : prefixes) for (const auto &op : menu) for (int k = 1; k <= 2; ++k)
@@ -269,6 +273,11 @@ static void gen(Emitter &em, const Options &opt) {
             menu.push_back("F" + std::to_string(o) + "," + std::to_string(L) + ",66"); menu.push_back("F" + std::to_string(o) + "," + std::to_string(2 * L) + ",67");
         }
         menu.push_back("X0;C0,1"); menu.push_back("X0;M0,1"); menu.push_back("X1;M1,2"); menu.push_back("X2;D2"); menu.push_back("X1;C1,0");
+        // allocate(n, 0) relies on nothing: the in-object array may hold stale characters of an earlier short value
+        menu.push_back("F0," + std::to_string(L - 1) + ",0"); menu.push_back("F1,2,0"); menu.push_back("F0," + std::to_string(L) + ",0");
+        // the fill constructor at every size class around the limit
+        for (size_t n : {(size_t)0, (size_t)L - 1, (size_t)L, (size_t)L + 1}) menu.push_back("X2;f2," + std::to_string(n) + ",70");
+        menu.push_back("X0;f0," + std::to_string(L) + ",0");
         // thorough: depth 3 for char and char32_t (third object short / long), depth 2 for char16_t and wchar_t, which share
         // every line of code with them (8.5 M histories for depth 3 on all four types took 27 min; this is 3 M)
         bool deep = thorough && (std::string(ty.w) == "8" || std::string(ty.w) == "32");
